@@ -14,10 +14,10 @@
 (*                                                                         *)
 (* Schema / Attrs below are the single description of the serialisable     *)
 (* classes (the driver reads them from TLC, it has no table of its own).   *)
-(* Narrow readings: ExtendedLSR, Zacros, Network, EmpiricalBase itself and *)
-(* pmutt.omkm.reaction.BEP are not named by the property and are left out; *)
-(* ChemkinReaction species are empirical objects (the constructor needs    *)
-(* `.phase`).                                                              *)
+(* Every class of pmutt with to_dict/from_dict is here except Zacros (its  *)
+(* constructor fails under NumPy 2: numpy.product); "OmkmBEP" stands for   *)
+(* pmutt.omkm.reaction.BEP.  ChemkinReaction species are empirical objects *)
+(* (the constructor needs `.phase`).                                       *)
 (*                                                                         *)
 (* Public calls = actions:                                                 *)
 (*   Encode      json.dumps(obj, cls=pmuttEncoder)                         *)
@@ -51,11 +51,12 @@ Error == [kind |-> "error"]
 
 ModeCls == {"EmptyMode", "ConstantMode", "FreeTrans", "HarmonicVib", "QRRHOVib", "EinsteinVib",
             "DebyeVib", "RigidRotor", "GroundStateElec", "EmptyNucl"}
-LeafCls == ModeCls \cup {"GasPressureAdj", "PiecewiseCovEffect", "CatSite", "BEP", "SingleNasa9",
+LeafCls == ModeCls \cup {"GasPressureAdj", "PiecewiseCovEffect", "CatSite", "BEP", "OmkmBEP", "SingleNasa9",
                          "IdealGasEOS", "vanDerWaalsEOS"}
 RxnCls == {"Reaction", "ChemkinReaction", "SurfaceReaction"}
 Class == LeafCls \cup RxnCls \cup {"StatMech", "Nasa", "Nasa9", "Shomate", "Reference", "References",
-                                  "Reactions", "PhaseDiagram", "LSR"}
+                                  "Reactions", "PhaseDiagram", "LSR",
+                                  "EmpiricalBase", "Network", "ExtendedLSR"}
 
 Slot(n, kd, fill, mn) == [s |-> n, kind |-> kd, of |-> fill, min |-> mn]
 Misc == <<"PiecewiseCovEffect", "GasPressureAdj">>
@@ -84,7 +85,12 @@ Schema == [c \in Class |->
      [] c = "References" -> << Slot("references", "list", <<"Reference">>, 0) >>
      [] c = "Reaction" -> RxnSlots(Species, Species \o <<"BEP">>)
      [] c = "ChemkinReaction" -> RxnSlots(Empirical, Empirical)
-     [] c = "SurfaceReaction" -> RxnSlots(Species, Species \o <<"BEP">>)
+     [] c = "SurfaceReaction" -> RxnSlots(Species, Species \o <<"BEP", "OmkmBEP">>)
+     [] c = "EmpiricalBase" -> << Slot("model", "opt", <<"StatMech">>, 0), Slot("misc_models", "list", Misc, 0) >>
+     [] c = "Network" -> << Slot("reactions", "list", <<"Reaction", "ChemkinReaction", "SurfaceReaction">>, 1) >>
+     [] c = "ExtendedLSR" -> << Slot("reactions", "list", <<"Reaction">>, 1),
+                                Slot("surf_species", "list", <<"StatMech", "Nasa">>, 1),
+                                Slot("gas_species", "list", <<"StatMech", "Nasa">>, 1) >>
      [] c = "Reactions" -> << Slot("reactions", "list", <<"Reaction", "ChemkinReaction", "SurfaceReaction">>, 1) >>
      [] c = "PhaseDiagram" -> << Slot("reactions", "list", <<"Reaction">>, 1) >>
      [] c = "LSR" -> << Slot("reaction", "one", <<"Reaction">>, 1),
@@ -115,6 +121,9 @@ Attrs == [c \in Class |->
      [] c = "CatSite" -> {"name", "site_density", "density", "bulk_specie"}
      [] c = "BEP" -> {"name", "slope", "intercept", "descriptor", "elements", "notes"}
      [] c = "LSR" -> {"slope", "intercept", "notes"}
+     [] c = "ExtendedLSR" -> {"slopes", "intercept", "notes"}
+     [] c = "EmpiricalBase" -> EmpAttrs
+     [] c = "OmkmBEP" -> {"name", "slope", "intercept", "descriptor", "elements", "notes", "direction"}
      [] c = "Reaction" -> RxnAttrs
      [] c = "ChemkinReaction" -> RxnAttrs \cup {"beta", "is_adsorption", "sticking_coeff"}
      [] c = "SurfaceReaction" -> RxnAttrs \cup {"id", "is_adsorption", "A", "beta", "Ea", "sticking_coeff",
@@ -133,7 +142,8 @@ Required == Variant = "required"
 
 \* type_to_class
 Registry == IF Required THEN Class
-            ELSE Class \ {"ConstantMode", "LSR", "ChemkinReaction", "SurfaceReaction", "PhaseDiagram"}
+            ELSE Class \ {"ConstantMode", "LSR", "ChemkinReaction", "SurfaceReaction", "PhaseDiagram",
+                          "Network", "ExtendedLSR", "OmkmBEP"}
 \* attributes to_dict leaves out / from_dict does not hand to the constructor (pinned source)
 NotWritten(c) == IF Required THEN {} ELSE
    CASE c = "GroundStateElec" -> {"D0"}
